@@ -185,6 +185,7 @@ func GenLayout(r *rand.Rand, p Profile) *Layout {
 		s.Add(td)
 	}
 	// ---- abstract types over entities
+	relOwnerHome := -1
 	var ifaceImpl []string
 	if p.Interface && len(entNames) >= 2 {
 		n := 2 + r.IntN(len(entNames)-1)
@@ -197,7 +198,7 @@ func GenLayout(r *rand.Rand, p Profile) *Layout {
 		s.Add(it)
 		relOwner := ""
 		var relOwnerType *gen.TypeRef
-		relOwnerHome := -1
+		relOwnerHome = -1
 		if p.IfaceRel {
 			relOwner = entNames[r.IntN(len(entNames))]
 			relOwnerType = gen.Named(relOwner, false)
@@ -237,11 +238,25 @@ func GenLayout(r *rand.Rand, p Profile) *Layout {
 				}
 			}
 		}
+		// and sometimes a third one, so that three different type conditions apply to one concrete type
+		tagged := map[string]bool{}
+		if len(owned) > 0 && r.IntN(2) == 0 {
+			tt := &gen.TypeDef{Name: "Tagged", Kind: gen.Interface, Fields: []*gen.Field{{Name: "id", Type: gen.Named("ID", true)}, {Name: "relOwner", Type: relOwnerType}}}
+			s.Add(tt)
+			for i, en := range ifaceImpl {
+				if i == 0 || r.IntN(2) == 0 {
+					tagged[en] = true
+				}
+			}
+		}
 		for _, en := range ifaceImpl {
 			td := s.Type(en)
 			td.Interfaces = append(td.Interfaces, "Node")
 			if owned[en] {
 				td.Interfaces = append(td.Interfaces, "Owned")
+			}
+			if tagged[en] {
+				td.Interfaces = append(td.Interfaces, "Tagged")
 			}
 			if relOwner != "" {
 				td.Fields = append(td.Fields, &gen.Field{Name: "relOwner", Type: relOwnerType})
@@ -416,11 +431,24 @@ func GenLayout(r *rand.Rand, p Profile) *Layout {
 		}
 	}
 	if len(ifaceImpl) > 0 {
-		addRoot(q, &gen.Field{Name: "nodes", Type: gen.ListOf(gen.Named("Node", r.IntN(2) == 0), false)}, pick(r, all), false)
-		addRoot(q, &gen.Field{Name: "someNode", Type: gen.Named("Node", false)}, pick(r, all), false)
+		// (with a common relOwner home, often the same subgraph also serves the abstract root fields:
+		// then nothing forces the planner to flatten `... on I { relOwner }` into per-type fragments)
+		abstractRootHome := func() int {
+			o := pick(r, all)
+			if relOwnerHome >= 0 && r.IntN(3) != 0 {
+				o = relOwnerHome
+			}
+			return o
+		}
+		addRoot(q, &gen.Field{Name: "nodes", Type: gen.ListOf(gen.Named("Node", r.IntN(2) == 0), false)}, abstractRootHome(), false)
+		addRoot(q, &gen.Field{Name: "someNode", Type: gen.Named("Node", false)}, abstractRootHome(), false)
 	}
 	if len(unionMembers) > 0 {
-		addRoot(q, &gen.Field{Name: "search", Type: gen.ListOf(gen.Named("SearchResult", false), false), Args: []*gen.Arg{{Name: "term", Type: gen.Named("String", false), Default: gen.StrV("x")}}}, pick(r, all), false)
+		so := pick(r, all)
+		if relOwnerHome >= 0 && r.IntN(3) != 0 {
+			so = relOwnerHome
+		}
+		addRoot(q, &gen.Field{Name: "search", Type: gen.ListOf(gen.Named("SearchResult", false), false), Args: []*gen.Arg{{Name: "term", Type: gen.Named("String", false), Default: gen.StrV("x")}}}, so, false)
 	}
 	addRoot(q, &gen.Field{Name: "version", Type: gen.Named("String", true)}, pick(r, all), false)
 	// no subgraph may be empty
@@ -545,6 +573,20 @@ func (g *lgen) emit() {
 				}
 			}
 			changed = len(need)+len(full) != before
+		}
+		// the additional interfaces (Owned, Tagged) are returned by no field: a subgraph that knows Node
+		// and one of their implementers declares them too (so that `... on Owned` can be sent to it)
+		if need["Node"] {
+			for _, extra := range []string{"Owned", "Tagged"} {
+				if s.Type(extra) == nil {
+					continue
+				}
+				for _, impl := range s.PossibleTypes(extra) {
+					if need[impl] {
+						need[extra] = true
+					}
+				}
+			}
 		}
 		// value types used in several subgraphs are shareable: computed after all subgraphs → mark always shareable
 		// 2. SDL + metadata
